@@ -39,21 +39,28 @@ func generateSequenceDiagramHelper(m *sysl.Module, appName string, epName string
 		result += fmt.Sprintf(" %s ->> %s: %s\n", previousApp, cleanAppName(appName), epName)
 	}
 	statements := m.Apps[appName].Endpoints[epName].GetStmt()
-	result += printSequenceDiagramStatements(m, statements, appName, previousApp, indent, sequencePairs, theStart)
-	return result, nil
+	out, err := printSequenceDiagramStatements(m, statements, appName, previousApp, indent, sequencePairs, theStart)
+	if err != nil {
+		return "", err
+	}
+	return result + out, nil
 }
 
 // printSequenceDiagramStatements is where the printing takes place
 // Uses a switch statement to decide what to print and what recursion needs to be done
 func printSequenceDiagramStatements(m *sysl.Module, statements []*sysl.Statement, appName string,
-	previousApp string, indent int, sequencePairs *[]sequencePair, theStart bool) string {
+	previousApp string, indent int, sequencePairs *[]sequencePair, theStart bool) (string, error) {
 	var result string
 	count := 0
 	for _, statement := range statements {
 		switch c := statement.Stmt.(type) {
 		case *sysl.Statement_Group:
 			result += fmt.Sprintf("%s%s\n", addIndent(indent), c.Group.Title)
-			result += printSequenceDiagramStatements(m, c.Group.Stmt, appName, previousApp, indent+1, sequencePairs, theStart)
+			out, err := printSequenceDiagramStatements(m, c.Group.Stmt, appName, previousApp, indent+1, sequencePairs, theStart)
+			if err != nil {
+				return "", err
+			}
+			result += out
 			isloop := isLoop.MatchString(c.Group.Title)
 			iselse := isElse.MatchString(c.Group.Title)
 			if isloop || iselse {
@@ -69,7 +76,7 @@ func printSequenceDiagramStatements(m *sysl.Module, statements []*sysl.Statement
 				previous := appName
 				out, err := generateSequenceDiagramHelper(m, nextapp, nextep, previous, indent, sequencePairs, false)
 				if err != nil {
-					panic("Error in generating sequence diagram; check if app names or endpoints are correct")
+					return "", fmt.Errorf("call %s <- %s in %s: %w", nextapp, nextep, appName, err)
 				}
 				result += out
 			}
@@ -80,7 +87,11 @@ func printSequenceDiagramStatements(m *sysl.Module, statements []*sysl.Statement
 			result += actionStatement(appName, c.Action.Action, indent)
 		case *sysl.Statement_Cond:
 			result += fmt.Sprintf("%salt %s\n", addIndent(indent), c.Cond.Test)
-			result += printSequenceDiagramStatements(m, c.Cond.Stmt, appName, previousApp, indent+1, sequencePairs, theStart)
+			out, err := printSequenceDiagramStatements(m, c.Cond.Stmt, appName, previousApp, indent+1, sequencePairs, theStart)
+			if err != nil {
+				return "", err
+			}
+			result += out
 			if count+1 < len(statements) {
 				switch temp := statements[count+1].Stmt.(type) {
 				case *sysl.Statement_Group:
@@ -95,22 +106,34 @@ func printSequenceDiagramStatements(m *sysl.Module, statements []*sysl.Statement
 			}
 		case *sysl.Statement_Foreach:
 			result += fmt.Sprintf("%sloop %s\n", addIndent(indent), c.Foreach.Collection)
-			result += printSequenceDiagramStatements(m, c.Foreach.Stmt, appName, previousApp, indent+1, sequencePairs, theStart)
+			out, err := printSequenceDiagramStatements(m, c.Foreach.Stmt, appName, previousApp, indent+1, sequencePairs, theStart)
+			if err != nil {
+				return "", err
+			}
+			result += out
 			result += fmt.Sprintf("%send\n", addIndent(indent))
 		case *sysl.Statement_Loop:
 			result += fmt.Sprintf("%sloop %s\n", addIndent(indent), c.Loop.Criterion)
-			result += printSequenceDiagramStatements(m, c.Loop.Stmt, appName, previousApp, indent+1, sequencePairs, theStart)
+			out, err := printSequenceDiagramStatements(m, c.Loop.Stmt, appName, previousApp, indent+1, sequencePairs, theStart)
+			if err != nil {
+				return "", err
+			}
+			result += out
 			result += fmt.Sprintf("%send\n", addIndent(indent))
 		case *sysl.Statement_LoopN:
 			result += fmt.Sprintf("%sloop %d times\n", addIndent(indent), c.LoopN.Count)
-			result += printSequenceDiagramStatements(m, c.LoopN.Stmt, appName, previousApp, indent+1, sequencePairs, theStart)
+			out, err := printSequenceDiagramStatements(m, c.LoopN.Stmt, appName, previousApp, indent+1, sequencePairs, theStart)
+			if err != nil {
+				return "", err
+			}
+			result += out
 			result += fmt.Sprintf("%send\n", addIndent(indent))
 		default:
 			result += ""
 		}
 		count++
 	}
-	return result
+	return result, nil
 }
 
 // isValidAppNameAndEndpoint checks if the entered application name and endpoint exists in the sysl module or not
